@@ -106,6 +106,56 @@ def get_engine(name):
     return _ENGINES[name]
 
 
+def isolated(fn, *args):
+    """Run fn(*args) in a forked child and return its (picklable) result.  Every simulated run starts
+    from the same pristine module state (whatever the code under test keeps in module-level or class-level
+    variables cannot leak from one run into the next), which is what makes one seed one repeatable
+    execution."""
+    import pickle
+
+    if os.environ.get("VERIF_NO_FORK") == "1":
+        return fn(*args)
+    r, w = os.pipe()
+    pid = os.fork()
+    if pid == 0:
+        code = 0
+        try:
+            os.close(r)
+            try:
+                payload = pickle.dumps(("ok", fn(*args)))
+            except BaseException as e:  # noqa: BLE001
+                import traceback
+
+                payload = pickle.dumps(("err", "%s: %s\n%s" % (type(e).__name__, e, traceback.format_exc()[-1500:])))
+            with os.fdopen(w, "wb") as f:
+                f.write(payload)
+        except BaseException:  # noqa: BLE001
+            code = 3
+        finally:
+            os._exit(code)
+    os.close(w)
+    with os.fdopen(r, "rb") as f:
+        data = f.read()
+    _, status = os.waitpid(pid, 0)
+    if not data:
+        raise Harness("isolated run died without a result (wait status %d)" % status)
+    kind, value = pickle.loads(data)
+    if kind == "err":
+        raise Harness("isolated run raised " + value)
+    return value
+
+
+_PRELOADED = set()
+
+
+def preload(eng, tier):
+    key = (eng.NAME, tier, os.getpid())
+    if key not in _PRELOADED:
+        _PRELOADED.add(key)
+        if hasattr(eng, "preload"):
+            eng.preload(tier)
+
+
 def _work(engine_name, tier, seed, start, end, hard_timeout):
     faulthandler.dump_traceback_later(hard_timeout, exit=True)
     try:
@@ -113,9 +163,10 @@ def _work(engine_name, tier, seed, start, end, hard_timeout):
 
         logging.disable(logging.CRITICAL)
         eng = get_engine(engine_name)
+        preload(eng, tier)
         out = []
         for i in range(start, end):
-            out.append(eng.run_index(seed, tier, i, worker_tmp()))
+            out.append(isolated(eng.run_index, seed, tier, i, worker_tmp()))
         return out
     finally:
         faulthandler.cancel_dump_traceback_later()
@@ -219,7 +270,7 @@ def minimise(eng, run, violation, tmpdir, max_exec=400):
             if executed > max_exec:
                 break
             try:
-                res = eng.execute_run(cand, tmpdir)
+                res = isolated(eng.execute_run, cand, tmpdir)
             except Exception:
                 continue
             same = [v for v in res["violations"] if eng.signature(v, cand) == target]
@@ -253,7 +304,7 @@ def report(prop, tier, seed, eng, results, tmpdir):
         v = {k: x for k, x in v.items() if k != "run"}
         small, sv, n_exec = minimise(eng, run, v, tmpdir)
         sv = {k: x for k, x in sv.items() if k != "run"}
-        res = eng.execute_run(small, tmpdir)
+        res = isolated(eng.execute_run, small, tmpdir)
         doc = {
             "property": prop,
             "engine": eng.NAME,
